@@ -192,9 +192,16 @@ def kernel_tie(run, cfgs, parts=("scalar",)):
     import kernels as K
     run.kernel_failures = K.check_kernels(run, list(cfgs), parts)
 
+def whole_tie(run, cfgs, parts):
+    import whole as W
+    run.whole_failures = getattr(run, "whole_failures", []) + W.check_whole(run, list(cfgs), list(parts))
+
 def p_c01(run):
     cfgs = ("native", "w32", "neutral") if run.tier == "quick" else tuple(C.CONFIGS)
     kernel_tie(run, ("native", "w32", "neutral") if run.tier == "quick" else ("native", "w32", "neutral", "neutral32"))
+    import whole as W
+    if run.tier == "quick": whole_tie(run, ("native", "w32"), W.QUICK_BLK)
+    else: whole_tie(run, ("native", "w32", "neutral", "neutral32"), W.BLK_PARTS)
     run_scripts(run, G.gen_c01(run.rng, run.tier), std_variants(run, cfgs))
 def p_c02(run):
     cfgs = ("native", "w32", "neutral") if run.tier == "quick" else tuple(C.CONFIGS)
@@ -282,7 +289,7 @@ def kf_c06_1_applies(lines, ln, res):
     return False
 
 def p_c07(run):
-    cfgs = ("native",) if run.tier == "quick" else ("native", "w32", "noua", "w32noua")
+    cfgs = ("native", "no256", "nosimd") if run.tier == "quick" else ("native", "no256", "nosimd", "w32", "noua", "w32noua")
     kernel_tie(run, ("native", "w32"), ("scalar", "v128par", "v256par"))
     run_scripts(run, G.gen_c07(run.rng, run.tier), std_variants(run, cfgs))
 
@@ -301,9 +308,9 @@ def p_c10(run):
     run_scripts(run, G.gen_c10(run.rng, run.tier), vs)
 
 def p_c13(run):
-    vs = std_variants(run, ("native",))
+    vs = std_variants(run, ("native", "no256", "nosimd"))      # selection must respect what is compiled in
     if run.tier != "quick":
-        vs += std_variants(run, ("nosimd",)) + [C.build_variant(run.work, "native", "clang", "-O2"),
+        vs += [C.build_variant(run.work, "native", "clang", "-O2"),
                                                    C.build_variant(run.work, "native", "gcc", "-O0")]
     run_scripts(run, G.gen_c13(run.rng, run.tier), vs)
 
@@ -436,6 +443,18 @@ def main():
                                        % (kf["cfg"], ", ".join(f["kernel"] for f in kf["failed"]) or kf.get("stage")),
                                "theorems": [f["kernel"] + "_check" for f in kf["failed"]], "kernel_counterexamples": kf["failed"],
                                "stage": kf.get("stage"), "log": kf.get("log", "")[-1200:]}, no_input=not concrete)
+        for wf in getattr(run, "whole_failures", []):
+            concrete = [v for v in run.violations if not v[2]]
+            if wf.get("stage") == "translator":
+                what = ("the whole-function translator refuses the current source (configuration %s, %s): %s"
+                        % (wf["cfg"], wf["part"], wf.get("log", "").strip().splitlines()[-1][:300] if wf.get("log") else ""))
+            else:
+                what = ("whole-function obligation %s (configuration %s, %s) regenerated from the current source no longer checks"
+                        % (wf.get("failed"), wf["cfg"], wf["part"]))
+            run.add_violation({"property": prop, "kind": "whole-function-obligation", "what": what,
+                               "theorems": [wf.get("failed") or (wf["part"] + "_correct")], "stage": wf.get("stage"),
+                               "secret_dependent": wf.get("secret_dependent", False),
+                               "log": wf.get("log", "")[-1500:]}, no_input=not concrete)
     except C.BuildError as e:
         desc = {"property": prop, "kind": "build", "what": "the library does not build for variant %s" % e.name, "log": e.log[-3000:]}
         run.add_violation(desc, no_input=True)
@@ -462,7 +481,10 @@ def write_evidence(run, coq, path):
     ks = getattr(run, "kernel_stats", None)
     if ks:
         coq = dict(coq); coq["obligations"] += ks["kernel_obligations"]; coq["discharged"] += ks["discharged"]
-    cov = {"obligations": coq["obligations"], "discharged": coq["discharged"], "kernel_tie": ks,
+    ws = getattr(run, "whole_stats", None)
+    if ws:
+        coq = dict(coq); coq["obligations"] += ws["obligations"]; coq["discharged"] += ws["discharged"]
+    cov = {"obligations": coq["obligations"], "discharged": coq["discharged"], "kernel_tie": ks, "whole_function_tie": ws,
            "checker_cmd": "cd /verif/coq && make -k -j16 Properties_%s.vo && coqc -Q . Skinny Properties_%s.v (Print Assumptions)" % (run.prop, run.prop),
            "trusted_base": TRUSTED.get(run.prop, TRUSTED["*"]),
            "theorems": coq["theorems"], "print_assumptions": coq["assumptions"],
